@@ -1,0 +1,32 @@
+//! Observer registry for the verification harness.
+//!
+//! Compiled only with `--cfg yamaquasi_verif`; every entry point is a no-op until the
+//! harness installs a callback, and no hook changes control flow.
+
+use std::sync::atomic::{AtomicUsize, Ordering};
+
+use crate::relations::Relation;
+use crate::Uint;
+
+/// Callback receiving `(n, relation)` for every relation published as complete by a
+/// `RelationSet` (`n` is the modulus the set was created with, multiplier included).
+pub type RelationSink = fn(&Uint, &Relation);
+
+// A plain function pointer (0 = none) so that publishing never takes a lock.
+static RELATION_SINK: AtomicUsize = AtomicUsize::new(0);
+
+/// Installs (or removes) the observer of published relations.
+pub fn set_relation_sink(f: Option<RelationSink>) {
+    RELATION_SINK.store(f.map(|f| f as usize).unwrap_or(0), Ordering::SeqCst);
+}
+
+/// Called by `RelationSet::add_cycle` for every complete relation.
+#[inline]
+pub fn relation_published(n: &Uint, r: &Relation) {
+    let p = RELATION_SINK.load(Ordering::Relaxed);
+    if p != 0 {
+        // SAFETY: the only non-zero values ever stored are `RelationSink` pointers.
+        let f: RelationSink = unsafe { std::mem::transmute::<usize, RelationSink>(p) };
+        f(n, r)
+    }
+}
